@@ -307,6 +307,33 @@ theorem not_serializable : ¬ SerializableStatement := by
 
 /-! ## `MutableWorlds.lock` -/
 
+/-! ### `add-world-with-change` writes inside the read phase -/
+
+/-- **`add-world-with-change` is outside the protocol**: with a reader of world 2 in its read phase (client 0,
+holding the world object it fetched) and a second client evaluating `add-world-with-change` for world 2 (client
+1, also only a reader), the effect replaces and writes world 2 while `writer = false` and both clients hold the
+read lock: the first reader's object is orphaned mid-read and the new object is written with no exclusion — on
+the real service the race detector reports the write (`MutableOverlayWorld.AddTag`) against a concurrent
+`FindFeatureByID` of a reader that fetched the new world.  Recorded as a finding. -/
+theorem add_world_writes_during_read_phase :
+    ∃ s, Reachable (step true) (init [] [(2, [(0, 1)])] [.query 2, .query 0]) s ∧
+      s.clients.map (·.pc) = [Pc.eval, Pc.eval] ∧ s.writer = false ∧ s.readers = 2 ∧
+      (addWorldEffect s 2 [.set 1 1]).writer = false ∧
+      lookupWorld (addWorldEffect s 2 [.set 1 1]) 2 = some [(1, 1)] ∧ lookupWorld s 2 = some [(0, 1)] ∧
+      (s.clients[0]?.bind (·.obj)) = some 0 ∧ mfind (addWorldEffect s 2 [.set 1 1]).map 2 = some 2 :=
+  ⟨(runSched (step true) (init [] [(2, [(0, 1)])] [.query 2, .query 0]) [0, 0, 1, 1]).get (by decide),
+    Reachable.of_runSched [0, 0, 1, 1] _ _ Reachable.refl (by simp),
+    by decide, by decide, by decide, by decide, by decide, by decide, by decide, by decide⟩
+
+open B6.Model.Proto.Worlds B6.Lemmas.ProtoWorlds in
+/-- **The `MutableWorlds` mutex never deadlocks**: any calls of `FindOrCreateWorld`, `DeleteWorld`, `ListWorlds`. -/
+theorem worlds_no_deadlock (m : List (Nat × Nat)) (next : Nat) (ops : List Op) (hk : (m.map (·.1)).Nodup)
+    (s : Worlds.State) (h : Reachable Worlds.step (Worlds.init m next ops) s) :
+    deadlocked Worlds.step Worlds.terminal s = false :=
+  worlds_not_deadlocked s (Reachable.invariant WInv (winv_init m next ops hk) (fun s s' => winv_step s s') s h)
+
+
+
 open B6.Model.Proto.Worlds B6.Lemmas.ProtoWorlds in
 theorem reachable_winv {m : List (Nat × Nat)} {next : Nat} {ops : List Op} (hk : (m.map (·.1)).Nodup)
     {s : Worlds.State} (h : Reachable Worlds.step (Worlds.init m next ops) s) : WInv s :=
